@@ -11,7 +11,7 @@
 (* and validation continues.  A log only BLOCKS when a line is not a step   *)
 (* the row machine allows at all (then l stops short of the end).          *)
 (***************************************************************************)
-EXTENDS Queries, TLCExt, Json, IOUtils
+EXTENDS Transform, TLCExt, Json, IOUtils
 
 VARIABLES tid, l, fails, snap0
 Log == JsonDeserialize(IOEnv.TRACE_FILE)
@@ -151,12 +151,61 @@ CallChecks(e) ==
     [] e.op = "mcount"     -> << <<"measures_count", IF M = 0 THEN ~e.res.ok ELSE e.res.ok /\ e.res.v = M>> >>
     [] e.op = "opaque"     -> <<>>                                                        \* a call only watched for purity
     [] OTHER -> << <<"unknown_op", FALSE>> >>
+(* ----------------------- transposition (C15) ---------------------------- *)
+\* e = [iv, up, ref, res, back, src_after]: res = dumps(to_transposed(doc)), back = dumps of transposing the result back,
+\* src_after = dumps(source) after the call, ref = the event holding dumps(source) before the call
+TransposeChecks(e) ==
+  LET iv == IvOfName[e.iv]  ts == TransposedStages(iv, e.up) IN
+  << <<"transpose.succeeds_when_spellable", AllSpellable(iv, e.up) => e.res.ok>>,
+     <<"transpose.result_grid", (AllSpellable(iv, e.up) /\ e.res.ok) => On(ts, mstarts)!GridMatches(e.res.grid, 2, Len(stages), DefaultOpts, TRUE)>>,
+     <<"transpose.round_trip_restores_source_export", e.res.ok => (e.back.ok /\ e.back.grid = ResOf(e.ref).grid)>>,
+     <<"transpose.source_export_unchanged", e.src_after = ResOf(e.ref)>> >>
+TTranspose == /\ IsEvent("transpose") /\ UNCHANGED spVars /\ UNCHANGED snap0
+              /\ Note(TransposeChecks(Ev) \o << <<"transpose.source_document_unchanged", Ev.snap = snap0>> >>)
+
+(* ----------------------- concatenation (C19) ---------------------------- *)
+\* the state is the import of the JOINED text; e = [ends, pairs, same, exports]: ends[i] = stage of the last line of fragment i,
+\* pairs = what concat returned, same = concat's document has the same snapshot as the import of the joined text,
+\* exports[i] = dumps(concat document, from_measure = pairs[i][1], to_measure = pairs[i][2])
+MeasuresUpTo(st) == Cardinality({j \in 1..Len(mstarts) : mstarts[j] <= st})
+FragmentData(e, i) == DataLines(GridFrom((IF i = 1 THEN 2 ELSE e.ends[i - 1] + 1), e.ends[i], DefaultOpts))
+ConcatChecks(e) ==
+  LET n == Len(e.ends) IN
+  << <<"concat.same_document_as_joined_import", e.same>>,
+     <<"concat.one_pair_per_fragment", Len(e.pairs) = n>>,
+     <<"concat.pairs", Len(e.pairs) = n => \A i \in 1..n :
+          e.pairs[i] = <<(IF i = 1 THEN 0 ELSE MeasuresUpTo(e.ends[i - 1]) + 1), MeasuresUpTo(e.ends[i])>> >>,
+     <<"concat.consecutive", \A i \in 1..(Len(e.pairs) - 1) : e.pairs[i + 1][1] = e.pairs[i][2] + 1>>,
+     <<"concat.last_is_measure_count", Len(e.pairs) > 0 => e.pairs[Len(e.pairs)][2] = M>>,
+     <<"concat.pair_addresses_fragment", Len(e.exports) = n /\ \A i \in 1..n :
+          e.exports[i].ok /\ DataLines(e.exports[i].grid) = FragmentData(e, i)>> >>
+TConcat == /\ IsEvent("concat") /\ UNCHANGED spVars /\ UNCHANGED snap0 /\ Note(ConcatChecks(Ev))
+
+(* ----------------------- measure excerpts (C08) ------------------------- *)
+\* An excerpt is judged by feeding ITS lines (cells classified by an independent lexer of the text) to the row machine:
+\* it must be a behaviour of SpinePaths that ends closed (header first, cell counts consistent with the operators, every
+\* spine terminated), and every note must be governed by the signatures the generator's tracker found in the full score.
+TXHeader == IsEvent("xheader") /\ Header(Ev.cells) /\ UNCHANGED <<fails, snap0>>
+TXRow == IsEvent("xrow") /\ Row(Ev.cells) /\ UNCHANGED <<fails, snap0>>
+SigTextAt(p) == IF p = NoPtr THEN <<>> ELSE At(p).cell.t
+NotesGoverning == LET ptrs == Flat([s \in 1..Len(stages) |-> SelectSeq([i \in 1..Len(stages[s]) |-> <<s, i>>],
+                                         LAMBDA q : s > 1 /\ stages[q[1]][q[2]].cell.k = "note")])
+                  IN [j \in 1..Len(ptrs) |-> LET n == At(ptrs[j]) IN <<n.cell.t, SigTextAt(n.sig.clef), SigTextAt(n.sig.key), SigTextAt(n.sig.time)>>]
+TXEnd == /\ IsEvent("xend") /\ UNCHANGED spVars /\ UNCHANGED snap0
+         /\ Note(<< <<"excerpt.every_spine_terminated", status = "closed">>,
+                    <<"excerpt.reimports_without_errors", Ev.reimport_ok /\ Ev.reimport_nerr = 0>>,
+                    <<"excerpt.same_governing_signatures", NotesGoverning = Ev.gov>> >>)
+\* the excerpt could not even be produced, or its first line is not a header line
+TXBad == /\ IsEvent("xbad") /\ UNCHANGED spVars /\ UNCHANGED snap0
+         /\ Note(<< <<Ev.what, FALSE>> >>)
+
 \* read-only calls: the document (and the shared defaults) are unchanged - the snapshot digest stays what it was after import
 TCall == /\ IsEvent("call") /\ UNCHANGED spVars /\ UNCHANGED snap0
          /\ Note(CallChecks(Ev) \o << <<"call.readonly", Ev.snap = snap0>> >>
                  \o (IF "fresh" \in DOMAIN Ev THEN << <<"call.same_as_on_fresh_import", Ev.fresh>> >> ELSE <<>>))
 
 TNext == TBlank \/ TGlobal \/ THeader \/ TRow \/ TSurplus \/ TEnd \/ TCall \/ TImportFailed
+         \/ TTranspose \/ TConcat \/ TXHeader \/ TXRow \/ TXEnd \/ TXBad
 TInit == SpInit /\ tid \in 1..Len(Log) /\ l = 1 /\ fails = <<>> /\ snap0 = ""
 Spec == TInit /\ [][TNext]_allVars
 Mark == TLCSet(1, [TLCGet(1) EXCEPT ![tid] = IF @.l < l THEN [l |-> l, fails |-> fails] ELSE @])
